@@ -7,7 +7,7 @@ trap 'git -C /repo checkout -- . ; git -C /repo clean -fdq' EXIT INT TERM
 git apply "$patch" || exit 2
 cd /verif
 for p in "$@"; do
-  out=$(./bin/verif check "$p" 2>&1); code=$?
+  out=$(VERIF_OUT=/tmp/mutant_out ./bin/verif check "$p" 2>&1); code=$?
   echo "== $p exit=$code"
   echo "$out" | grep -E "VIOLATION|INCONCLUSIVE|KNOWN-FINDING|^  \[" | cut -c1-400 | head -8
 done
